@@ -115,7 +115,27 @@ Section NegCompile.
                       end) (a_effs a).
 
   Definition ncr_safe (P : problem) : bool := forallb (fun ia => action_safe (snd ia)) (p_actions P).
+
+  (* the part of [ncr_safe] that is about single effects: an effect on a negated fluent is an assignment of a Boolean
+     constant (so that simplify(Not(value)) is the complemented constant) *)
+  Definition action_const (a : action) : bool :=
+    forallb (fun e => match ng (e_fl e) with
+                      | None => true
+                      | Some _ => is_kassign e && match const_bool (e_val e) with Some _ => true | None => false end
+                      end) (a_effs a).
+  Definition ncr_const (P : problem) : bool := forallb (fun ia => action_const (snd ia)) (p_actions P).
 End NegCompile.
+
+(* the semantic part of [ncr_safe] (what the plan-level proof really needs): whenever the preconditions of an action
+   instance hold, the effect instances that fire on ONE GROUND negated fluent carry one value.  `at(x) := false;
+   at(y) := true` satisfies it in every state in which the preconditions force x <> y; [ncr_safe] (one constant per
+   fluent SYMBOL and action) is the decidable sufficient condition. *)
+Definition one_value (nmap : list (N * N)) (P : problem) : Prop :=
+  forall s aid a args acts, In (aid, a) (p_actions P) ->
+    all_hold false (mk_interp P s (zip_params (a_params a) args)) (a_pre a) = true ->
+    fired false (mk_interp P s (zip_params (a_params a) args)) (a_effs a) = Some acts ->
+    forall x y, In x acts -> In y acts -> ng nmap (fst (ae_key x)) <> None -> ae_key x = ae_key y ->
+                ae_val x = ae_val y.
 
 (* a concrete rewriting for examples (and as a reference for the fluent case of walk_not on NNF input):
    `not f(args)` |-> nf(args) when f is mapped, everything else rebuilt *)
@@ -125,6 +145,15 @@ Fixpoint nrw (ng : N -> option N) (e : expr) {struct e} : expr :=
   | EAnd l => EAnd (map (nrw ng) l)
   | EOr l => EOr (map (nrw ng) l)
   | _ => e
+  end.
+
+(* the expressions on which [nrw] is exact: negations only directly above a fluent that is not a negation fluent,
+   everything else free of negation fluents *)
+Fixpoint nrw_dom (nmap : list (N * N)) (e : expr) {struct e} : bool :=
+  match e with
+  | ENot (EFluent f args) => negb (is_negb nmap f) && forallb (clean nmap) args
+  | EAnd l | EOr l => forallb (nrw_dom nmap) l
+  | _ => clean nmap e
   end.
 
 (* two interpretations related by "nf = not f" (everything else equal) *)
